@@ -35,12 +35,12 @@ ENTRIES = ['lookup', 'lookup1', 'lookupAll', 'names', 'subscriptions',
 SPEC_ENTRIES = ENTRIES[:5]
 OBJ_ENTRIES = ENTRIES[5:]
 POINTS = ['lazy_required', 'providedBy_descriptor', 'uncached_before', 'uncached_after', 'spec_subscribe',
-          'generation_property', 'changed_override', 'factory']
+          'generation_property', 'changed_override', 'changed_before', 'factory']
 ACTIONS = ['register', 'register_other_key', 'unregister', 'subscribe', 'unsubscribe', 'register_base', 'rbases', 'irebase',
            'cdecl', 'rebuild', 'changed', 'relookup_same', 'relookup_other', 'gc_finalizer', 'raise']
 CACHES = ['cold', 'warm', 'sibling']
 BLOCK = 400
-ENUM_NOTE = ('complete product {registry flavour: 2} x {entry point: 9} x {callback point: 8} x {action: 15} x {cache state: 3} '
+ENUM_NOTE = ('complete product {registry flavour: 2} x {entry point: 9} x {callback point: 9} x {action: 15} x {cache state: 3} '
              'restricted to the combinations in which the entry point can reach the callback point; thread schedules are sampled')
 
 
@@ -49,7 +49,7 @@ def applicable(flav, entry, point):
         return entry in ('lookup', 'lookupAll', 'names', 'subscriptions')
     if point == 'providedBy_descriptor':
         return entry in OBJ_ENTRIES
-    if point == 'generation_property' or point == 'changed_override':
+    if point in ('generation_property', 'changed_override', 'changed_before'):
         return flav == 'V'
     if point == 'factory':
         return entry in OBJ_ENTRIES
@@ -246,12 +246,13 @@ def execute_reenter(program, ctx, mode):
                     r = base._uncached_subscriptions(self, required, provided)
                     fire('uncached_after')
                     return r
-                if point == 'changed_override':
+                if point in ('changed_override', 'changed_before'):
                     def changed(self, originally_changed):
+                        fire('changed_before')          # before the refresh: a failure here must leave the refresh still due
                         base.changed(self, originally_changed)
                         fire('changed_override')
             return L
-        hooked = point in ('uncached_before', 'uncached_after', 'changed_override')
+        hooked = point in ('uncached_before', 'uncached_after', 'changed_override', 'changed_before')
 
         class BaseA(AdapterRegistry):
             pass
@@ -455,10 +456,16 @@ def execute_reenter(program, ctx, mode):
                 S.subscriptions((R2,), P0)
             else:
                 ask(S, entry, spec=R2)
-        if point in ('generation_property', 'changed_override'):
+        if point in ('generation_property', 'changed_override', 'changed_before'):
             # make the verifying lookup notice a changed base generation on its next call
             B.register((R2,), P0, 'bump', V['FB'])
             muts.append(('reg', 'B', (R2,), P0, 'bump', 'FB'))
+            if point == 'changed_before':
+                # ... and let the base change alter what the multi-result entry points answer for the asked key, so that
+                # a refresh that failed and is wrongly taken as done shows as a stale answer on the next call
+                for m in (('reg', 'B', (R0,), P0, 'nb', 'FB'), ('sub', 'B', (R1,), P0, 'S1')):
+                    apply(B, S, m)
+                    muts.append(m)
         a0 = expected(False)
         del calls[:]
         audit['lookup'] = S._v_lookup
